@@ -419,10 +419,12 @@ class ScopeGen(ScopeFn):
             self.seen.append(node)
         return node.node
 
-    def iterator(self, target):
+    def iterator(self, target, seen_start=0, seen_end=None):
         """
         Declare an iteration variable name for this scope; as in Python, the
-        iteration variable(s) cannot be reassigned.
+        iteration variable(s) cannot be reassigned. `seen_start` and
+        `seen_end` delimit the part of `self.seen` that compiling `target`
+        added.
         """
         self.iterators.update(
             name.id for name in ast.walk(target) if isinstance(name, ast.Name)
@@ -432,4 +434,11 @@ class ScopeGen(ScopeFn):
         self.assignments = [
             node for node in self.assignments if node.name not in self.iterators
         ]
-        self.seen = [node for node in self.seen if node.name not in self.iterators]
+        # Likewise for the references `target` made, but not for other
+        # references to an outer variable of the same name, as in the
+        # iterable of `(lfor  x x  ...)`.
+        self.seen[seen_start:seen_end] = [
+            node
+            for node in self.seen[seen_start:seen_end]
+            if node.name not in self.iterators
+        ]
